@@ -2,7 +2,7 @@
    Full-strength statement: C16 (see DESIGN.md section 7) (Cluster/Statements.v). Proved so far: the theorems below; what is
    not yet proved is decided on every run by the lock-step co-simulation (model = implementation on every
    explored schedule) together with the monitors run on the implementation's own observations. *)
-From RaftV Require Import Cluster.Statements Proofs.RVSpec Proofs.AESpec Proofs.ReadSpec.
+From RaftV Require Import Cluster.World Cluster.Statements Proofs.RVSpec Proofs.AESpec Proofs.ReadSpec Proofs.StickyWorld.
 Open Scope N_scope.
 
 (* RequestVote, every voter state x every request *)
@@ -39,3 +39,63 @@ Print Assumptions C16_election_timeout_starts_a_prevote.
 Theorem C16_prevote_request_changes_nothing : forall now n q, rv_prevote q = true -> fst (h_request_vote now n q) = n.
 Proof. exact rv_prevote_pure. Qed.
 Print Assumptions C16_prevote_request_changes_nothing.
+
+(* Cluster level, one step of ANY world (reachable or not), any request: a vote request - prevote or real, of any term,
+   from any candidate (isolated for any duration, removed, restarted, campaigning repeatedly) - delivered, or delivered
+   again by the network, to a node that has heard from a leader within an election timeout (or holds a valid lease)
+   changes NO node of the cluster: not the destination's term, role or vote, in memory or on disk, and nobody else. *)
+Theorem C16_vote_request_to_a_sticky_node_changes_no_node : forall w cid c n q,
+  get_call w cid = Some c -> get_node w (c_dst c) = Some n -> sticky w n -> c_req c = ReqRV q ->
+  forall id, get_node (step w (LDeliver cid)) id = get_node w id /\ get_node (step w (LDup cid)) id = get_node w id.
+Proof. exact sticky_step_changes_no_node. Qed.
+Print Assumptions C16_vote_request_to_a_sticky_node_changes_no_node.
+
+(* ... and what the candidate is answered: refused, with the voter's own unchanged term *)
+Theorem C16_sticky_node_refuses : forall w cid c n q,
+  get_call w cid = Some c -> c_state c = CPending -> get_node w (c_dst c) = Some n -> sticky w n -> c_req c = ReqRV q ->
+  step w (LDeliver cid) =
+    set_call (set_node w n)
+      (c <| c_resp := Some (RespRV {| rvr_term := n_term n; rvr_granted := false |}) |> <| c_state := CAnswered |>).
+Proof. exact sticky_step_refuses. Qed.
+Print Assumptions C16_sticky_node_refuses.
+
+(* any number of vote requests delivered to sticky nodes, in any order, duplicates included: no node changes - in
+   particular no term of the healthy majority increases and its leader does not step down.  (What is NOT proved: that
+   a leader in prompt contact with a majority keeps that majority sticky as time passes - the timing half of C16.) *)
+Theorem C16_campaigning_against_sticky_nodes_changes_no_node : forall ls w, sticky_labels w ls ->
+  forall id, get_node (run w ls) id = get_node w id.
+Proof. exact sticky_run_changes_no_node. Qed.
+Print Assumptions C16_campaigning_against_sticky_nodes_changes_no_node.
+
+(* not vacuous: a reachable world of three nodes in which node 0 leads term 1, node 1 has just received its heartbeat,
+   node 2 (which has not) campaigns, and its vote request to node 1 is in flight (call 7) *)
+Definition c16_labels : list label :=
+  [LTick 4; LElection 0; LElectionRun 0; LTask 0; LTask 0; LDeliver 0; LReply 0; LElectionRun 0; LTask 0; LTask 0;
+   LDeliver 1; LReply 1; LDeliver 2; LReply 2; LTask 0; LTask 0; LDeliver 4; LElection 2; LElectionRun 2; LTask 2; LTask 2].
+Example C16_not_vacuous :
+  let w := run (init_world [0; 1; 2] [0; 1; 2] 4 2) c16_labels in
+  exists c n q, get_call w 7 = Some c /\ c_state c = CPending /\ c_src c = 2 /\ get_node w (c_dst c) = Some n /\
+                n_id n = 1 /\ sticky w n /\ c_req c = ReqRV q.
+Proof.
+  cbn zeta.
+  set (w := run (init_world [0; 1; 2] [0; 1; 2] 4 2) c16_labels).
+  destruct (get_call w 7) as [c|] eqn:Ec; [|exfalso; revert Ec; vm_compute; discriminate].
+  destruct (get_node w (c_dst c)) as [n|] eqn:En.
+  2:{ exfalso. revert Ec En. vm_compute. intros Ec. injection Ec as <-. vm_compute. discriminate. }
+  assert (Hall : match get_call w 7 with
+                 | Some c => match get_node w (c_dst c) with
+                             | Some n => match c_state c, c_req c with
+                                         | CPending, ReqRV _ => (c_src c =? 2) && (n_id n =? 1) && negb (n_frozen n) &&
+                                              negb (role_eqb (n_role n) Shutdown) &&
+                                              (lease_valid (w_now w) n || recent_contact (w_now w) n)
+                                         | _, _ => false end
+                             | None => false end
+                 | None => false end = true) by (vm_compute; reflexivity).
+  rewrite Ec, En in Hall. clearbody w.
+  destruct (c_state c) eqn:Es; try discriminate. destruct (c_req c) as [qa|q|qi] eqn:Er; try discriminate.
+  apply andb_prop in Hall. destruct Hall as [Hall H5]. apply andb_prop in Hall. destruct Hall as [Hall H4].
+  apply andb_prop in Hall. destruct Hall as [Hall H3]. apply andb_prop in Hall. destruct Hall as [H1 H2].
+  exists c, n, q. split; [reflexivity|]. split; [exact Es|]. split; [apply N.eqb_eq, H1|]. split; [exact En|].
+  split; [apply N.eqb_eq, H2|]. split; [|exact Er].
+  unfold sticky. split; [apply Bool.negb_true_iff, H3|]. split; [apply Bool.negb_true_iff, H4|exact H5].
+Qed.
